@@ -10,8 +10,7 @@ package core
 //@ iface fileRepository.Set
 //@   params ctx, file
 //@   modifies world.recSeq, world.recTx, world.recKey, world.hasRec, world.logSeq, world.logCid
-//@   ghost world.logSeq := old(world.logSeq) ++ [file.Seq]
-//@   ghost world.logCid := old(world.logCid) ++ [file.ContentId]
+//@   ensures logged: world.logSeq == old(world.logSeq) ++ [file.Seq] && world.logCid == old(world.logCid) ++ [file.ContentId]
 //@   ensures ok:     result == nil ==> world.hasRec[file.ContentId] && world.recSeq[file.ContentId] == file.Seq &&
 //@                      world.recTx[file.ContentId] == file.TxId && world.recKey[file.ContentId] == file.Key
 //@   ensures fail:   result != nil ==> world.hasRec[file.ContentId] == old(world.hasRec[file.ContentId]) && world.recSeq[file.ContentId] == old(world.recSeq[file.ContentId]) &&
